@@ -18,6 +18,8 @@ theorem time_split_lowest : Extracted.splitAtLowestIndex = true := by decide
 theorem time_patch_table : Extracted.patchTable = Time.patchTable := by decide
 theorem time_patch_args : Extracted.patchArgs = Time.patchArgs := by decide
 theorem time_rewrites : Extracted.rewriteTable = Time.rewriteTable := by decide
+/-- `_replace_all` is the find / replace / skip-the-replacement loop (`Time.replaceAllCppF`, `Time.replaceAllCpp_eq`) -/
+theorem time_replace_loop : Extracted.replaceAllLoop = true := by decide
 theorem time_rejected : Extracted.rejectedTable = Time.rejectedTable := by decide
 theorem time_noon_midnight : Extracted.noonMidnightTable = Time.noonMidnightTable := by decide
 theorem time_hms : Extracted.hmsDivisors = Time.hmsDivisors := by decide
